@@ -16,6 +16,15 @@ CLAIMS = {
         note="Trusted: Lean kernel, Mathlib, axioms propext/Classical.choice/Quot.sound; the correspondence harness; float arctan2/winding "
              "replaced by exact predicates with non-generic inputs excluded; Hopf's Umlaufsatz is an explicit hypothesis (monitored exactly).",
         ref="§7 C01"),
+    "C05": dict(
+        technique="Lean 4 proof (gauge invariance via closed-walk rotation, single-flip locality, global product) + translated kernel + correspondence",
+        text="Kernel-checked theorems about the executable flux model for every loop-free lattice and every bond configuration: flux definition, "
+             "±1, complex = real·i^n, fluxes_to_labels (definition regenerated from the source) maps +1→0/−1→1, gauge invariance of every "
+             "plaquette flux, single-bond locality on edge-simple boundaries, product of all fluxes = (−1)^E when plaquettes cover all darts. "
+             "Model run against fluxes_from_ujk (real/complex) on the zoo × exhaustive/random u; consequences re-checked on the implementation.",
+        note="Trusted: Lean kernel/Mathlib/standard axioms; translator (Python int subset → Int.fdiv/fmod normal form); harness; numpy's exact ±1 products. "
+             "'flipping one bond flips exactly the adjacent plaquettes' uses C02's adjacency table on the implementation side.",
+        ref="§7 C05"),
 }
 
 PENDING_REASON = "check not built yet in this revision (work in progress; see DESIGN.md §7 for the planned Lean model and tie)"
